@@ -302,6 +302,7 @@ class _QuietMapLoop(heap.MapLoop):
 def _account_total(c, method, figname, dname, accname, loopid):
     w, w2, a = c.key('w'), c.key('w2'), c.key('a')
     W, b = world(c, [w, w2], [a])
+    W.opaque_valuation = True        # per-portfolio figures by contract (their definition is the L1 valuation harness)
     fig = {'tmv': W.tmv, 'equity': W.equity}[figname]
     if c.mode == 'sym':
         c.assume(liftk(w) != heap.keylit('master'))       # a portfolio called 'master' would collide with the total's key
